@@ -12,1132 +12,46 @@ Definition show_fres (r : fres) : string :=
   end.
 Definition check (rs : list rune) : string := digest (show_fres (format_res rs)).
 Definition full (rs : list rune) : string := show_fres (format_res rs).
-Eval vm_compute in ("<<<M13>>>" ++ full (runes_of_ascii "root
-    packet	roots{ // `tick` ""quote"" 'q'
-} options	{	asx =
-    ""\n"" ; x_y_z =
-3 ;rootA = ""CRC32""
-    ;float=char  T = false
-; }
-packet falsey {
-body { match u8x as /// triple
-string_{ [
-42,7 ,65535
-    ,
-    3 ,
-    42 ,7 , ""1""
-    , ""packet"" ]:
-    // `tick` ""quote"" 'q'
-    i64_ , [ ""abc""]
-    :  Foo ,	""a\\""
-    :
-roots ,
-    4294967296 :	stringy	}
-    , //x
-asx
-`{ , }` // " ++ [128512]%N ++ runes_of_ascii " emoji
-, i8
-charz@lengthOf( // trailing space 
-x_y_z)// trailing space 
-`a\` ,}
-    // @lengthOf(
-    , @tag( 65535 ) i64_ @lengthOf( tag )`u8 x,`
+Eval vm_compute in ("<<<M19>>>" ++ full (runes_of_ascii "
+")).
+Eval vm_compute in ("<<<M29>>>" ++ full (runes_of_ascii "// " ++ [27880; 37322]%N ++ runes_of_ascii "
+
+")).
+Eval vm_compute in ("<<<M46>>>" ++ full (runes_of_ascii "//x
+
 // a // b
-//	t
-,Z9_@lengthOf( int )
-, @calculatedFrom( ""a\""b""
-)uint16  stringy @lengthOf( trueish ) , Logon	{string  Logon `say ""hi""` , packetx
-i64_ , match msg_type as	float
-{ ""\n"" : i64_,	[
-""" ++ [128512]%N ++ runes_of_ascii """
-    ]
-:
-metadata , // `tick` ""quote"" 'q'
-[
-// trailing space 
-// " ++ [128512]%N ++ runes_of_ascii " emoji
-10, ""1""  ]
-:zchar ,
-}
-    , //x
-}
-    //x
-    , Packet
-    @calculatedFrom(""CRC32"" ), }
 ")).
-Eval vm_compute in ("<<<M30>>>" ++ full (runes_of_ascii "packet
-repeatCount
-    {@calculatedFrom(	""abc"" ) zchar[
-    // @lengthOf(
-    0
-] // `tick` ""quote"" 'q'
-MetaDataX  `
-`	, string_
-@calculatedFrom( ""1""
-    ) ,	match string_
-    as msg_type{ [// a // b
-65535	,// a // b
-""a	b""
-    , 7
-    ,	255 ]:
-matchKey , 10 :
-    options1 , 3 :Logon
-    , } ,
-    // " ++ [27880; 37322]%N ++ runes_of_ascii "
-    packetx `a\` ,}
+Eval vm_compute in ("<<<M56>>>" ++ full (runes_of_ascii " 	 ")).
+Eval vm_compute in ("<<<M72>>>" ++ full (@nil rune)).
+Eval vm_compute in ("<<<M84>>>" ++ full (runes_of_ascii " // " ++ [27880; 37322]%N)).
+Eval vm_compute in ("<<<M86>>>" ++ full (runes_of_ascii "  ")).
+Eval vm_compute in ("<<<M99>>>" ++ full (runes_of_ascii "
+ // " ++ [128512]%N ++ runes_of_ascii " emoji")).
+Eval vm_compute in ("<<<M111>>>" ++ full (runes_of_ascii "
+
 ")).
-Eval vm_compute in ("<<<M33>>>" ++ full (runes_of_ascii "packet
-int {zchar[ 007 ] metadata ,i16	matchKey,
-@rightPad('0')
-@lengthOf(
-    metadata) repeat zchar[
-    10 ]
-//
-// " ++ [128512]%N ++ runes_of_ascii " emoji
-charz
-    // trailing space 
-    ,	} packet int { @tag( 65535 )
-u32 x @calculatedFrom(
-    ""x y""// " ++ [27880; 37322]%N ++ runes_of_ascii "
-),match pack as MetaDataX
-{
-    [	""abc"" ,
-    // " ++ [27880; 37322]%N ++ runes_of_ascii "
-    0123456789 , ""`tick`"" ] :
-body}	, @lengthOf( zchar ) match leftPad as u8x{
-    10:  u8x ,
-[
-007
-    // " ++ [128512]%N ++ runes_of_ascii " emoji
-    , 255
-    ]
-    :
-    chars	"""" :
-    body ,42 : trueish , }, }")).
-Eval vm_compute in ("<<<M53>>>" ++ full (runes_of_ascii "root
-packet u {
-    char[007 ]x_y_z
-`two words` , int16 u8x
-    @calculatedFrom( ""packet""
-    )
-    // @lengthOf(
-    ,
-    float64
-    falsey
-@calculatedFrom( ""\" ++ [233]%N ++ runes_of_ascii """ ) `u8 x,`
-    ,
-    trueish @calculatedFrom(
-    """ ++ [233]%N ++ runes_of_ascii "t" ++ [233]%N ++ runes_of_ascii """ )
-`tab	here` , @tag( 1	) repeat char[
-4294967296 ]
-    // " ++ [128512]%N ++ runes_of_ascii " emoji
-    u , match
-    // " ++ [27880; 37322]%N ++ runes_of_ascii "
-    i8i8
-    //
-    as // " ++ [128512]%N ++ runes_of_ascii " emoji
-o
-    { [""a\\""
-    ]:
-    matchKey,[ 0123456789
-    //x
-    , ""x y""  , 0 ,
-/// triple
-/// triple
-00 , ""a	b"" ,""{,}"" , // a // b
-""{,}"" ,
-007 ] :
-u8x,
-255 : u128 , [
-""" ++ [28040; 24687]%N ++ runes_of_ascii """
-    , 0123456789	,65535 ,
-    // a // b
-    ""\n"" ] : _x, 7 :
-falsey} , @leftPad ( )// " ++ [128512]%N ++ runes_of_ascii " emoji
-charz @lengthOf(A ) , // `tick` ""quote"" 'q'
-} root packet stringy
-{
-    repeat
-    MetaDataX {float32
-T , string
-    x_y_z `a\`
-, repeat	_x  zchar`u8 x,` , }
-    , } packet Foo {
-    @lengthOf(  roots
-    ) calculatedFrom a1, zchar[ 0123456789]	_x,
-// @lengthOf(
-// trailing space 
-match //
-roots as MetaDataX // c
-{ /// triple
-42 :	_x ,
-3// a // b
-:msg_type  7 : a1, """"	:i8i8 , //x
-[ """ ++ [233]%N ++ runes_of_ascii "t" ++ [233]%N ++ runes_of_ascii """ ]: i8i8 , 00 : leftPad ,
-    } , @calculatedFrom( // @lengthOf(
-"""" ) char[  00 // c
-]
-Foo
-@lengthOf( uint8x) ,  f32 chars , }packet
-    metadata
-    //	t
-    { } MetaData i64_ // packet A { u8 x, }
-{ lengthOf options1 ,
-// @lengthOf(
-//x
-a1 A,
-    x Header ,
-    }
+Eval vm_compute in ("<<<M153>>>" ++ full (runes_of_ascii "// trailing space 
+
 ")).
-Eval vm_compute in ("<<<M68>>>" ++ full (runes_of_ascii "
-packet
-    Header {  match roots  as packetx
-// " ++ [27880; 37322]%N ++ runes_of_ascii "
-//	t
-{
-    // `tick` ""quote"" 'q'
-    [
-""" ++ [28040; 24687]%N ++ runes_of_ascii """ ,
-    0123456789 ]:packetx,
-//
-// c
-4294967296
-    : Logon ,	[ ""\n""
-    ,""x y"" , // " ++ [128512]%N ++ runes_of_ascii " emoji
-""packet"" , ""packet"" ] : i8i8 , 42 // `tick` ""quote"" 'q'
-:Foo
-    ,
-}, //	t
-@calculatedFrom( ""x y""	) f64 Logon ,} options
-    {
-    // " ++ [128512]%N ++ runes_of_ascii " emoji
-    chars=
-' '
-    ; repeatCount =
-""" ++ [233]%N ++ runes_of_ascii "t" ++ [233]%N ++ runes_of_ascii """ x	= ""\n"" ; calculatedFrom = ""`tick`"" //x
-; }
+Eval vm_compute in ("<<<M157>>>" ++ full (runes_of_ascii "//
+
 ")).
-Eval vm_compute in ("<<<M78>>>" ++ full (runes_of_ascii "options {
-Header	=u32; } options {
-i8i8	=
-    f64 ; body
-    =  zchar[
-// " ++ [128512]%N ++ runes_of_ascii " emoji
-/// triple
-00//
-] ; }
-    //
-    MetaData BodyLength  { // trailing space 
-}// " ++ [27880; 37322]%N ++ runes_of_ascii "
-options
-{ Logon= u64 As =
-    true i64_
-= '\x00' ;
-} root packet asx {
-@tag(
-// `tick` ""quote"" 'q'
-//	t
-4294967296
-    )
-    roots @lengthOf( A ) ,repeat uint8 u128
-    , int32 i64_  ,
-    u8 u `` ,
-@lengthOf(
-// c
-// c
-len ) uint64
-    //x
-    matchKey ,	match rootA
-    as stringy {
-1 : string_, 7 : charz , 255 : u128, [ // trailing space 
-0
-,0123456789 ,1,007  ]: len
-    , 10
-    :trueish } ,
-@rightPad	()
-    char[ 7] int //
-@lengthOf(
-x ) `two words`
-, }")).
-Eval vm_compute in ("<<<M104>>>" ++ full (runes_of_ascii "options{  matchKey = ""x y""
-    ;	MetaDataX
-= '0'
-;
-} packet // c
-msg_type { @rightPad ( ' '  )repeat u128 body	, match body	as /// triple
-pack{ [ ""\" ++ [233]%N ++ runes_of_ascii """ , ""1"" ]: BodyLength
-, [ 255
-, ""a	b"" , ""a\\"" , ""{,}""
-,  007 , 007 ,
-    0123456789
-] : options1	,	} ,@leftPad
-()@lengthOf(charz	)
-@tag(	42
-) o{	i32 msg_type @lengthOf( A )// " ++ [27880; 37322]%N ++ runes_of_ascii "
-`doc` ,zchar[ 1] charz  , // c
-i8 packetx`{ , }`,
-msg_type `crlf
-line`
-    , }	,
-@calculatedFrom( ""\" ++ [233]%N ++ runes_of_ascii """ ) Z9_ @calculatedFrom(
-""" ++ [128512]%N ++ runes_of_ascii """ )`tab	here` ,
-repeat char[] Foo ,
-repeat zchar[ 0123456789]	u128
-, }	packet f32a{
-    f32a @lengthOf( matchKey )//x
-, @rightPad (
-    ' ' // " ++ [27880; 37322]%N ++ runes_of_ascii "
-)@lengthOf( chars ) _x Foo  `` ,  match
-    body // c
-as
-    body
-    {	[4294967296
-    , ""packet"", 3 , """ ++ [128512]%N ++ runes_of_ascii """
-,
-0123456789  ]
-: T [ ""a\\"" ]// `tick` ""quote"" 'q'
-: T
-, ""\n""
-:
-u8x , }
-//	t
-//x
-,} //x
-root packet lengthOf
-{ }
+Eval vm_compute in ("<<<M241>>>" ++ full (runes_of_ascii "/// triple
 ")).
-Eval vm_compute in ("<<<M107>>>" ++ full (runes_of_ascii "packet falsey { i64_ ,	charz  {
-match Packet  as Pad { ""\n"" :Packet
-    , ""// no comment"" // " ++ [128512]%N ++ runes_of_ascii " emoji
-:
-f32a// `tick` ""quote"" 'q'
-, [
-    /// triple
-    3  ,4294967296,
-    10 ,//
-7 , 10	]
-: u
-, // trailing space 
-""`tick`"": u8x
-,
-[ 7 , ""it's"" ]:Packet, 0 : len
-    //
-    , }
-    , }, /// triple
-@lengthOf(	f32a) char[ 3 ]options1
-    @lengthOf(
-Pad)
-, zchar[ 0123456789 ]// trailing space 
-T ``
-,
-} packet
-Pad
-{
-    // c
-    o roots `{ , }` // " ++ [128512]%N ++ runes_of_ascii " emoji
-, }packet f32a {
-_x//
-@calculatedFrom(	""x y"") //x
-,@tag( 65535
-) //	t
-char pack @lengthOf( zchar  ) ,repeat //
-int64 falsey  ,repeat len {match A
-    as rootA {[ 42,  ""\n"" ]:
-Z9_ , }
-,repeat i16
-A , repeat zchar[ 65535 ] tag `
-` ,
-f64 float
-    @lengthOf( f32a ) ``  ,
-// `tick` ""quote"" 'q'
-// packet A { u8 x, }
-} , x
-    u8x
-, @tag(  42	) repeat As Packet	, @lengthOf( Pad
-    )repeat
-    f64 rootA ,// @lengthOf(
-}")).
-Eval vm_compute in ("<<<M129>>>" ++ full (runes_of_ascii "packet
-MetaDataX { metadata trueish`" ++ [233]%N ++ runes_of_ascii "`
-//x
-//x
-,// trailing space 
-@calculatedFrom(""`tick`"" )uint8x
-    // c
-    @calculatedFrom(  """ ++ [128512]%N ++ runes_of_ascii """  ) `{ , }`
-    , @calculatedFrom( ""a\""b"" ) // packet A { u8 x, }
-match Packet as
-    body { 3
-    : repeatCount
-,""x y""
-    /// triple
-    :lengthOf// `tick` ""quote"" 'q'
-4294967296 :
-    packetx
-    , [ ""abc""
-, ""// no comment""
-    ,
-""abc"" ,
-""\n"" //	t
-, ""1""
-]: u128 [ 00 , 65535 ,""x y"" ,""{,}""  ]
-: calculatedFrom ,
-    7 :	i8i8  }, u8x ,match int as	matchKey{
-[1 ,""CRC32""]
-    // trailing space 
-    :// @lengthOf(
-asx,	}
-    , @lengthOf( // " ++ [128512]%N ++ runes_of_ascii " emoji
-a1) string x `it's` , repeat // @lengthOf(
-char matchKey  ,
-    // a // b
-    @leftPad // trailing space 
-( )@rightPad ( ) match
-metadata	as  Packet { [ 65535  ] : Header , }, @tag( 255)
-zchar[ 3 ] crc `u8 x,` ,} MetaData
-    rootA // trailing space 
-{
-i8i8	Pad , int8
-packetx `{ , }`
-,
-    int8 stringy,
-    // `tick` ""quote"" 'q'
-    body _x  , body o , }")).
-Eval vm_compute in ("<<<M135>>>" ++ full (runes_of_ascii "
-packet crc
-    {@tag(	0)  @calculatedFrom(
-    ""{,}""	) @rightPad ( ' ')	repeat uint8 lengthOf // a // b
-,
-    char[	42 ] float ,
-    repeat a1 // packet A { u8 x, }
-{ match
-x_y_z as charz
-    { [
-00
-, 4294967296,
-//x
-// a // b
-""it's"",""" ++ [28040; 24687]%N ++ runes_of_ascii """ ] ://x
-zchar,	[
-    ""packet"" ,// c
-""x y"",
-""it's"" ,""abc"" ,
-""it's""
-    ] :string_ , 0 : Z9_
-}
-    // `tick` ""quote"" 'q'
-    , // `tick` ""quote"" 'q'
-} ,match u8x
-as//x
-pack {[ 0123456789
-, ""x y""
-] : // c
-trueish /// triple
-, }	,
-    @calculatedFrom( ""a\""b""
-    // c
-    ) repeat string_ `a\`,
-packetx@calculatedFrom(
-""`tick`"" ) , int64 chars `say ""hi""` , @calculatedFrom(
-""a	b"" )@leftPad (  '\x00'
-) @lengthOf(
-    repeatCount)u64
-    falsey@calculatedFrom( ""\" ++ [233]%N ++ runes_of_ascii """
-    )
-,
-repeat Header { repeat
-    metadata , char[] chars`" ++ [28040; 24687; 31867; 22411]%N ++ runes_of_ascii "` , zchar[ 10] x_y_z `a\` ,	},
-// trailing space 
-// c
-}
+Eval vm_compute in ("<<<M252>>>" ++ full (runes_of_ascii " // c")).
+Eval vm_compute in ("<<<M255>>>" ++ full (runes_of_ascii " /// triple")).
+Eval vm_compute in ("<<<M268>>>" ++ full (runes_of_ascii " // packet A { u8 x, }")).
+Eval vm_compute in ("<<<M286>>>" ++ full (runes_of_ascii " // `tick` ""quote"" 'q'")).
+Eval vm_compute in ("<<<M293>>>" ++ full (runes_of_ascii "  
+
 ")).
-Eval vm_compute in ("<<<M143>>>" ++ full (runes_of_ascii "
-packet  lengthOf
-{  @tag( 65535
-/// triple
-//	t
-)@tag( //	t
-3 ) @tag( 0123456789) options1 @calculatedFrom(""abc""
-    ) , @rightPad
-( '0')falsey @lengthOf( a1  )
-    ,
-    @lengthOf(Pad
-)body @calculatedFrom( // " ++ [128512]%N ++ runes_of_ascii " emoji
-""packet"" ) // trailing space 
-,
-} packet int
-{ string Foo @calculatedFrom(""CRC32"" ) ,}
-root
-// trailing space 
-//	t
-packet uint8x
-    {}
-root packet len { x_y_z
-_x ,
-    BodyLength rootA
-/// triple
-//
-,
-match f32a as Logon
-    {[ ""a\""b"" ,
-""" ++ [28040; 24687]%N ++ runes_of_ascii """
-    ,
-    """ ++ [128512]%N ++ runes_of_ascii """
-,65535, 00 ,4294967296
-    ,
-"""" ,""abc"" ]
-    : roots,[
-    00 ] :
-A ,  [
-    65535
-// a // b
-// trailing space 
-,
-// trailing space 
-// " ++ [128512]%N ++ runes_of_ascii " emoji
-65535
-, """" ]
-// c
-// packet A { u8 x, }
-:
-// " ++ [128512]%N ++ runes_of_ascii " emoji
-// trailing space 
-pack ,
-    }
-    // trailing space 
-    ,repeat Pad `say ""hi""` ,
-    /// triple
-    a1 calculatedFrom
-    ,
-@lengthOf( stringy )char[] As @calculatedFrom( ""\" ++ [233]%N ++ runes_of_ascii """ )
-, zchar[ 0123456789 ] Z9_
-    @lengthOf( repeatCount ) // packet A { u8 x, }
-`a\`
-, repeat // `tick` ""quote"" 'q'
-string lengthOf , //x
-u8 falsey @calculatedFrom(
-""a\\"" )  ,@calculatedFrom( ""it's"") string calculatedFrom @lengthOf( MetaDataX ) ,}")).
-Eval vm_compute in ("<<<M146>>>" ++ full (runes_of_ascii "MetaData
-chars {	int8 Z9_,	float rootA	`tab	here`// @lengthOf(
-,
-//x
-// @lengthOf(
-T o `it's` ,
-roots int , // c
-repeatCount MetaDataX, float32
-    falsey `say ""hi""`,} packet
-    msg_type
-{ repeat f32
-o // `tick` ""quote"" 'q'
-, @tag( 0
-)char[]  A	,  repeat char[] tag `say ""hi""` ,repeat char[ 0 ] Z9_ ,
-zchar[ 1 ] lengthOf ,
-i64 T , match float as
-leftPad {
-    007 : len /// triple
-, ""it's"" : len
-    , ""it's"" : // @lengthOf(
-float
-    [ 255 ,
-00
-, ""abc"", ""abc""
-,
-1
-, """ ++ [28040; 24687]%N ++ runes_of_ascii """ // `tick` ""quote"" 'q'
-, ""x y"" , """" // a // b
-] :	_x ,
-    """" : len ,""\" ++ [233]%N ++ runes_of_ascii """  : // a // b
-i64_
-, //	t
-}, roots{ char[ 1
-]// @lengthOf(
-Header
-@lengthOf( x_y_z )
-    , body u128 , // `tick` ""quote"" 'q'
-char[]
-float ,chars@lengthOf( x  )
-    `doc` ,}
-,
-    crc `it's`
-    // `tick` ""quote"" 'q'
-    , @calculatedFrom(""" ++ [128512]%N ++ runes_of_ascii """
-    )
-    BodyLength `" ++ [28040; 24687; 31867; 22411]%N ++ runes_of_ascii "` , }
-    packet
-    u128{  lengthOf ,pack
-@lengthOf( u8x// c
-)`// not a comment`// " ++ [27880; 37322]%N ++ runes_of_ascii "
-,@leftPad
-    (
-' ' ) float{match
-    asx as
-    charz
-{ [ 4294967296,""""
-, 255 ,42
-    ,""1""  ] : u8x ""{,}""	: Foo 42  :
-leftPad[ // trailing space 
-255 ,
-    // " ++ [128512]%N ++ runes_of_ascii " emoji
-    ""a\""b"" , ""it's""  , 4294967296 ] : stringy , 3
-:Header ,
-} ,match o // `tick` ""quote"" 'q'
-as
-    Pad
-    // trailing space 
-    { 3 :
-    i64_//x
-, } ,repeat
-    string msg_type ,
-    match
-packetx // " ++ [27880; 37322]%N ++ runes_of_ascii "
-as
-lengthOf
-    { [ ""x y"","""" ]
-:x_y_z
-// " ++ [27880; 37322]%N ++ runes_of_ascii "
-// c
-}, } ,i64 float,repeat
-    zchar[ 3  ] rootA
-    `crlf
-line`, match msg_type as len{
-""CRC32"":
-MetaDataX
-,
-} ,
-    f32
-A , char[
-0123456789 ] chars// " ++ [27880; 37322]%N ++ runes_of_ascii "
-`{ , }` , /// triple
-@calculatedFrom( ""a\""b""
-) string
-string_
-    `" ++ [233]%N ++ runes_of_ascii "` ,}
+Eval vm_compute in ("<<<M297>>>" ++ full (runes_of_ascii "// " ++ [128512]%N ++ runes_of_ascii " emoji
+
+
 ")).
-Eval vm_compute in ("<<<M149>>>" ++ full (runes_of_ascii "// trailing space 
-packet
-    charz {	@calculatedFrom( ""1""
-)match x
-as tag
-    {	[
-7 , // @lengthOf(
-0
-, 65535	,
-    // `tick` ""quote"" 'q'
-    ""it's""/// triple
-,0
-    ,
-""x y"", 255 ] :tag  , [ ""1"" // a // b
-, //	t
-3  , 007, // " ++ [27880; 37322]%N ++ runes_of_ascii "
-255 ,  ""x y""
-    // @lengthOf(
-    ] :pack ,[""" ++ [233]%N ++ runes_of_ascii "t" ++ [233]%N ++ runes_of_ascii """	, 7  , 10  , 3
-, 0
-    , ""a\""b"" ] :
-    // packet A { u8 x, }
-    leftPad, [ 65535
-    // " ++ [27880; 37322]%N ++ runes_of_ascii "
-    ,
-""x y""]
-: chars [ ""\n"" ,65535 , ""a\\""
-] :
-A	, ""\n"" :
-    lengthOf , } ,
-match string_
-    as	i8i8 { 7 :msg_type , // c
-""abc"" :
-tag ,""a\""b"" :metadata, 255
-    : matchKey	,
-    [""CRC32"" ,""1""
-// " ++ [27880; 37322]%N ++ runes_of_ascii "
+Eval vm_compute in ("<<<M376>>>" ++ full (runes_of_ascii "
 // " ++ [128512]%N ++ runes_of_ascii " emoji
-, 007 , ""packet"" ,""a\\"" /// triple
-,	""a\""b""
-    // " ++ [128512]%N ++ runes_of_ascii " emoji
-    , 007 , 4294967296 ] : lengthOf , }
-,uint16
-pack , string Pad@lengthOf( o ) `say ""hi""` ,repeat i8 body
-    ,
-@lengthOf( //x
-crc ) float64 body `// not a comment`
-, repeat rootA { int16 x_y_z `tab	here` ,
-falsey @calculatedFrom( ""{,}"" ), trueish @lengthOf(
-crc) `{ , }` , }
-, match Pad as
-Header
-{
-    4294967296: Header,""\n"" :msg_type,""a	b"" :
-    x_y_z
-    , }
-,
-    //	t
-    Logon
-, } 	 ")).
-Eval vm_compute in ("<<<M196>>>" ++ full (runes_of_ascii "root  packet u { match //x
-T as body// c
-{
-[
-""a\""b""
-    , 3 ] :
-stringy  ""a	b"" : charz // a // b
-,
-    10:  lengthOf// " ++ [128512]%N ++ runes_of_ascii " emoji
-, ""CRC32"" : falsey
-,
-    0123456789 : _x ,
-    } , body @lengthOf( i64_ )
-, u64 chars
-`u8 x,` ,T {i64_ string_,
-    u32 metadata , zchar[ 1
-]Z9_,}
-    // c
-    ,@calculatedFrom( ""a\\"" ) rootA // " ++ [128512]%N ++ runes_of_ascii " emoji
-x_y_z
-`u8 x,` ,
-    zchar[ 007 ]body @calculatedFrom(
-""\n""
-) ,
-    @leftPad (
-'0') @rightPad
-    ( '0' )
-@calculatedFrom( """ ++ [233]%N ++ runes_of_ascii "t" ++ [233]%N ++ runes_of_ascii """
-    )	repeat uint64 A	, repeat  u8x
-    { match
-o
-as
-x
-    {
-    10	:charz
-// " ++ [27880; 37322]%N ++ runes_of_ascii "
-// " ++ [27880; 37322]%N ++ runes_of_ascii "
-,""a	b"": matchKey
-, ""x y""
-:
-    trueish ,[ """ ++ [233]%N ++ runes_of_ascii "t" ++ [233]%N ++ runes_of_ascii """ ] : zchar,""1"" : charz // " ++ [27880; 37322]%N ++ runes_of_ascii "
-,
-[ ""a\""b"" ,
-""abc""
-, ""a\\"", ""abc"" ,
-// packet A { u8 x, }
-// " ++ [128512]%N ++ runes_of_ascii " emoji
-""""
-// packet A { u8 x, }
-/// triple
-] : u8x, } ,	},repeat falsey { rootA
-    tag ,
-    zchar[/// triple
-0 ] falsey ,  }
-    , charz a1 `{ , }`
-, } root
-packet /// triple
-Header{}
 ")).
-Eval vm_compute in ("<<<M225>>>" ++ full (runes_of_ascii "packet T
-    // " ++ [128512]%N ++ runes_of_ascii " emoji
-    { match repeatCount as
-Packet {
-    ""packet"" : msg_type , 00 :
-    Foo
-    ,""" ++ [128512]%N ++ runes_of_ascii """ : trueish, """": repeatCount
-    [ // packet A { u8 x, }
-4294967296 , 65535 ] :	u ,	}, @calculatedFrom( ""a\\"" )
-    float32 len @lengthOf(// " ++ [128512]%N ++ runes_of_ascii " emoji
-string_
-    ), stringy Pad, roots{ repeat x_y_z
-    `// not a comment`
-, T
-`" ++ [233]%N ++ runes_of_ascii "` , }, @tag(
-007 )  _x
-{// " ++ [128512]%N ++ runes_of_ascii " emoji
-char[] body
-@calculatedFrom( """ ++ [233]%N ++ runes_of_ascii "t" ++ [233]%N ++ runes_of_ascii """
-    //	t
-    ) ,repeat Pad// packet A { u8 x, }
-``
-// c
-/// triple
-, }
-    //x
-    , match	u as packetx{// `tick` ""quote"" 'q'
-[ ""// no comment"" ,
-007]	: T
-, [  ""\" ++ [233]%N ++ runes_of_ascii """// " ++ [27880; 37322]%N ++ runes_of_ascii "
-] :// trailing space 
-u8x } , @rightPad( ) int8 _x , @lengthOf(
-A	)match/// triple
-crc
-as metadata { [ 00,
-    //	t
-    ""a\""b"" ,3
-    , 1
-    ,
-10 ] : Packet , //	t
-[
-4294967296	, ""abc"" , """"] // @lengthOf(
-:
-// `tick` ""quote"" 'q'
-// " ++ [27880; 37322]%N ++ runes_of_ascii "
-a1 , """ ++ [28040; 24687]%N ++ runes_of_ascii """ // `tick` ""quote"" 'q'
-:
-    repeatCount  , } , }options { }MetaData Header
-{  trueish Pad ,
-    } MetaData Z9_ { char[]
-metadata ,
-// " ++ [128512]%N ++ runes_of_ascii " emoji
-// packet A { u8 x, }
-Header A
-`doc`
-// a // b
-// a // b
-, //x
-uint32 // " ++ [27880; 37322]%N ++ runes_of_ascii "
-packetx ,
-int16 uint8x
-    //
-    , Header// @lengthOf(
-leftPad
-    , // packet A { u8 x, }
-}
-// trailing space 
+Eval vm_compute in ("<<<M378>>>" ++ full (runes_of_ascii "// @lengthOf(
+
 ")).
-Eval vm_compute in ("<<<M263>>>" ++ full (runes_of_ascii "
-packet Z9_ //x
-{ @calculatedFrom( ""1"" )
-match
-body as u8x{ [ 7 ] :
-u ,
-[7
-,00, ""a\""b""
-, """" , ""\n"" , 00
-] : charz , 1	: // c
-Packet
-, """ ++ [28040; 24687]%N ++ runes_of_ascii """ :
-f32a ,  00 : // trailing space 
-len } ,@lengthOf(calculatedFrom )	MetaDataX
-    , Packet	@lengthOf(
-    int ) , repeat // `tick` ""quote"" 'q'
-char[ 7 ]calculatedFrom, @calculatedFrom(""a\\"" ) zchar[ //
-255 // " ++ [128512]%N ++ runes_of_ascii " emoji
-] f32a @calculatedFrom( """ ++ [233]%N ++ runes_of_ascii "t" ++ [233]%N ++ runes_of_ascii """ ) ,	@calculatedFrom( ""a\""b"" // packet A { u8 x, }
-)char[7
-    //	t
-    ] i8i8 @calculatedFrom(""a\\"") `crlf
-line` ,zchar[
-    0123456789	]
-x `line1
-line2`
-,@leftPad () repeat
-u64 stringy , @lengthOf( x	) repeat
-body
-{//	t
-Z9_ {
-repeat asx , repeat crc i64_ // " ++ [27880; 37322]%N ++ runes_of_ascii "
-, repeat rootA { repeat rootA MetaDataX `line1
-line2`
-    // `tick` ""quote"" 'q'
-    ,match
-i64_ as
-calculatedFrom {
-    7
-:
-x[ 7 ] : stringy , ""1"": i8i8 , [
-""1"" , 42 ,
-// trailing space 
-/// triple
-""" ++ [233]%N ++ runes_of_ascii "t" ++ [233]%N ++ runes_of_ascii """ , 10 ,
-255 , 0 , 10 ]
-: u ,
-""x y""
-:
-    i8i8 }
-// `tick` ""quote"" 'q'
-//x
-,uint64 _x `
-` ,char[ 0 ] i64_ @calculatedFrom( ""CRC32""
-)
-    , }, x_y_z {
-char[] T
-// a // b
-// @lengthOf(
-,} ,} ,repeat  u64 Foo `a\`,
-    uint8
-uint8x,
-match
-//	t
-// trailing space 
-roots
-as chars {1
-    : _x ""a\""b"" :uint8x, 42 : metadata // " ++ [128512]%N ++ runes_of_ascii " emoji
-, // `tick` ""quote"" 'q'
-[// @lengthOf(
-""\n"" ,
-255]
-: zchar
-[ """ ++ [233]%N ++ runes_of_ascii "t" ++ [233]%N ++ runes_of_ascii """ ,3
-, 4294967296 ,// trailing space 
-0123456789 , ""x y"" ] : metadata[ // c
-""it's"" , ""// no comment""
-]  :Z9_
-    , }
-,	}
-    , } // a // b
-MetaData rootA	{ char[ 4294967296 ] msg_type,// @lengthOf(
-char[]  u128, uint64 a1 , int8 crc , Pad
-    msg_type `doc`
-,
-}
-//	t
-/// triple
-packet x_y_z
-    {@lengthOf( crc) match packetx as f32a	{ 0123456789:A
-,	00 :	u // @lengthOf(
-}, }
-")).
-Eval vm_compute in ("<<<M266>>>" ++ full (runes_of_ascii "packet metadata { repeat f64 // " ++ [128512]%N ++ runes_of_ascii " emoji
-Foo , repeat
-Logon
-    f32a`
-` , @calculatedFrom( ""1"" ) repeat
-    uint8 // trailing space 
-calculatedFrom `u8 x,`
-, char[]
-    packetx , // packet A { u8 x, }
-@calculatedFrom(
-""abc"" ) Pad
-@lengthOf(msg_type  )`line1
-line2` ,
-@rightPad
-(
-' ' )
-tag`" ++ [233]%N ++ runes_of_ascii "` ,@tag( 10
-    /// triple
-    )u8x
-@calculatedFrom( ""CRC32"" ),match
-// trailing space 
-// trailing space 
-metadata
-as msg_type
-//
-// " ++ [27880; 37322]%N ++ runes_of_ascii "
-{[
-""\n"" //x
-, 0123456789// c
-] : options1
-,
-    ""\n""
-    :
-    float ,},} packet
-// " ++ [128512]%N ++ runes_of_ascii " emoji
-// " ++ [128512]%N ++ runes_of_ascii " emoji
-MetaDataX {string string_ `doc`
-,
-@rightPad
-    (
-    '0' ) zchar[
-// " ++ [128512]%N ++ runes_of_ascii " emoji
-// `tick` ""quote"" 'q'
-00 ]
-zchar `a\`
-,} options {leftPad = 0 float = 4294967296 ;
-}// `tick` ""quote"" 'q'
-root packet body{ @calculatedFrom( ""1"" ) @lengthOf( int ) match float as Z9_  {
-// packet A { u8 x, }
-// trailing space 
-42
-: x
-""packet"" :// `tick` ""quote"" 'q'
-matchKey	, """ ++ [28040; 24687]%N ++ runes_of_ascii """
-/// triple
-// packet A { u8 x, }
-: o ,	255 :	float }
-, @tag( 0123456789 ) match	calculatedFrom as // @lengthOf(
-trueish { [ ""packet"" , ""`tick`"" //x
-,	""" ++ [233]%N ++ runes_of_ascii "t" ++ [233]%N ++ runes_of_ascii """ ] : MetaDataX 4294967296 :trueish
-, 3 :
-// trailing space 
-// packet A { u8 x, }
-i64_ , 0123456789 :
-f32a , [ 7, //	t
-10	,	""CRC32"" ,	""x y"" , ""\n""
-    // `tick` ""quote"" 'q'
-    , ""CRC32""
-    , ""`tick`""
-    ]// `tick` ""quote"" 'q'
-: body , }, char[ 1//
-]Foo // " ++ [128512]%N ++ runes_of_ascii " emoji
-, @rightPad( ' ' ) @calculatedFrom( // " ++ [27880; 37322]%N ++ runes_of_ascii "
-""a	b""
-) repeat string_ { repeat Logon // @lengthOf(
-,	Z9_	i8i8 ,match Z9_ as
-    A {[ 42
-    ] :Logon , [ ""CRC32"" , 1 , ""a\""b"" , 4294967296 , 0, ""\" ++ [233]%N ++ runes_of_ascii """ ] : roots ""a\""b"" : MetaDataX , 255
-: _x
-,
-    65535
-    :
-    rootA , }	,match _x as Foo {[ 255
-    , """ ++ [28040; 24687]%N ++ runes_of_ascii """ ,// packet A { u8 x, }
-""CRC32"" ,
-    // c
-    """ ++ [233]%N ++ runes_of_ascii "t" ++ [233]%N ++ runes_of_ascii """ ,
-    ""abc"" ] : len""a\\""
-: Pad  0
-: falsey,3 :	u128
-    ,
-} ,// a // b
-} , repeat // packet A { u8 x, }
-options1 int `{ , }`
-// packet A { u8 x, }
-//
-,
-}")).
-Eval vm_compute in ("<<<M279>>>" ++ full (runes_of_ascii "  root packet
-    crc {	uint32
-repeatCount //
-@lengthOf( // a // b
-MetaDataX	) `say ""hi""` ,
-    @tag( 65535 ) A {
-    u128 , u8x	{ repeatCount  @lengthOf( As )// c
-,// packet A { u8 x, }
-i32	_x@calculatedFrom(//	t
-""" ++ [128512]%N ++ runes_of_ascii """	), } , } // c
-,
-@lengthOf(As ) @tag(  0 ) @tag(4294967296 ) string metadata ,
-string lengthOf // `tick` ""quote"" 'q'
-@lengthOf(f32a) , @tag( 3 )string packetx,	@lengthOf( Pad) @lengthOf( packetx ) BodyLength @calculatedFrom( ""a	b"" )
-, repeat u8x
-{ zchar[ 3 ]
-    tag `doc` , match As as leftPad
-    { [
-    10 ,
-3 , 7 ,
-""abc"" , 42 // @lengthOf(
-]
-:
-A
-, } , match Header as falsey { 42
-// `tick` ""quote"" 'q'
-// trailing space 
-:
-    msg_type
-    , 00
-: A
-1 :
-charz ,""// no comment"" : int // @lengthOf(
-,	0123456789 :chars , 4294967296
-: x } ,
-}
-    /// triple
-    , @tag(
-10 ) @tag(//x
-007 )
-@calculatedFrom( ""`tick`""
-    )i8i8 @lengthOf(
-    //
-    charz ),
-    char[ 7] Header
-, } packet
-lengthOf // @lengthOf(
-{match metadata
-    // " ++ [128512]%N ++ runes_of_ascii " emoji
-    as asx{ 7 // packet A { u8 x, }
-: //
-float  ,
-    // " ++ [128512]%N ++ runes_of_ascii " emoji
-    """ ++ [233]%N ++ runes_of_ascii "t" ++ [233]%N ++ runes_of_ascii """:
-stringy
-, """ ++ [28040; 24687]%N ++ runes_of_ascii """ :
-BodyLength , 7 : leftPad , } , @lengthOf(MetaDataX
-)repeat zchar[ 7 ]float , @tag( 0
-    )matchKey @calculatedFrom(""packet""
-    ) // packet A { u8 x, }
-, }packet Pad{ options1 @lengthOf(rootA ),} root // c
-packet BodyLength{
-string uint8x
-//
-// " ++ [27880; 37322]%N ++ runes_of_ascii "
-@lengthOf( Z9_) , } // c")).
-Eval vm_compute in ("<<<M288>>>" ++ full (runes_of_ascii "// packet A { u8 x, }
-MetaData
-    _x
-{ //
-char[] len
-    ,}options
-// @lengthOf(
-//
-{ repeatCount =""""
-    ; }// c
-root packet chars {
-    char[ 255
-]u8x,	repeat
-/// triple
-// c
-string repeatCount
-`" ++ [28040; 24687; 31867; 22411]%N ++ runes_of_ascii "` ,
-repeat zchar[ 10
-]
-string_ , @tag( // trailing space 
-255
-    ) i8i8{// packet A { u8 x, }
-options1
-calculatedFrom `u8 x,`
-,
-    i64
-len,
-    roots // c
-{ // @lengthOf(
-repeat
-    // a // b
-    i64_ zchar //
-,
-    } ,
-    }
-, match chars as Packet	{
-""a\""b"": Pad
-,[ ""{,}""
-    ]
-:
-calculatedFrom // a // b
-,
-""" ++ [233]%N ++ runes_of_ascii "t" ++ [233]%N ++ runes_of_ascii """
-//x
-// `tick` ""quote"" 'q'
-: uint8x ,[ // packet A { u8 x, }
-""`tick`"" ,0
-    , 42
-    ] : _x[ 0123456789	, ""\" ++ [233]%N ++ runes_of_ascii """
-    ] :
-i8i8,	} ,	}
-")).
-Eval vm_compute in ("<<<M328>>>" ++ full (runes_of_ascii "
-packet
-Logon { repeatCount { BodyLength
-    `crlf
-line`, }
-    , zchar a1 `u8 x,`  ,
-match Foo as Foo { ""\n"" :i8i8,[
-""abc""
-    , // trailing space 
-""CRC32"" ]
-/// triple
-// " ++ [128512]%N ++ runes_of_ascii " emoji
-: // @lengthOf(
-crc
-    [ 3 ,
-//
-// " ++ [128512]%N ++ runes_of_ascii " emoji
-""x y"", 42 , ""`tick`""
-, 1 , ""a\""b"",
-    ""CRC32"" , 255 ]:repeatCount , [// " ++ [128512]%N ++ runes_of_ascii " emoji
-1
-// a // b
-// " ++ [27880; 37322]%N ++ runes_of_ascii "
-,007 ,
-""\n"",007 , 7 , ""// no comment"" ,
-255 ] :
-    uint8x 00
-: f32a , } ,
-    // a // b
-    uint16 Pad @lengthOf( uint8x)// packet A { u8 x, }
-`doc`  ,
-}")).
